@@ -522,3 +522,682 @@ def oracle_C09(ctx, cases, answers):
         if d:
             v.append((i, "string form %r loses information: %s" % (s, "; ".join(d))))
     return v
+
+
+# ---------------------------------------------------------------- an independent reading of the grammar
+
+def pct_decode_strict(piece):
+    """percent-decode then strict UTF-8; None if invalid"""
+    b = piece.encode("utf-8")
+    out = bytearray()
+    i = 0
+    while i < len(b):
+        if b[i] == 0x25 and i + 2 < len(b) + 0 and i + 2 <= len(b) - 1 + 0 and re.match(rb"^[0-9A-Fa-f]{2}$", b[i + 1:i + 3]):
+            out.append(int(b[i + 1:i + 3], 16))
+            i += 3
+        else:
+            out.append(b[i])
+            i += 1
+    try:
+        return out.decode("utf-8")
+    except UnicodeDecodeError:
+        return None
+
+
+def decompose(s):
+    """right-to-left decomposition of a purl string after `pkg:`; None if no scheme"""
+    if not s.startswith("pkg:"):
+        return None
+    r = s[4:].lstrip("/")
+    sub = q = None
+    if "#" in r:
+        r, sub = r.rsplit("#", 1)
+    if "?" in r:
+        r, q = r.rsplit("?", 1)
+    ty = rest = None
+    if "/" in r:
+        ty, rest = r.split("/", 1)
+    else:
+        ty = r
+    ver = ns = name = None
+    if rest is not None:
+        if "@" in rest:
+            rest, ver = rest.rsplit("@", 1)
+        if "/" in rest:
+            ns, name = rest.rsplit("/", 1)
+        else:
+            name = rest
+    return {"ty": ty, "ns": ns, "name": name, "ver": ver, "q": q, "sub": sub, "path": r}
+
+
+def defects(s, uni):
+    """the defects of the C05 list that string s has (independent strict reading); [] = none found"""
+    d = decompose(s)
+    if d is None:
+        return ["scheme"]
+    out = []
+    if d["path"] == "":
+        out.append("notype")
+    elif not re.match(r"^[A-Za-z0-9.+-]+$", d["ty"] or ""):
+        out.append("badtype")
+    if d["name"] is None and d["path"] != "":
+        out.append("noname")
+    if d["name"] is not None:
+        n = pct_decode_strict(d["name"])
+        if n is None:
+            out.append("utf8")
+        elif n == "":
+            out.append("noname")
+    if d["ver"] is not None and pct_decode_strict(d["ver"]) is None:
+        out.append("utf8")
+    if d["ns"] is not None:
+        for p in d["ns"].split("/"):
+            if p == "":
+                continue
+            x = pct_decode_strict(p)
+            if x is None:
+                out.append("utf8")
+            elif "/" in x:
+                out.append("slash")
+    if d["sub"] is not None:
+        for p in d["sub"].split("/"):
+            if p in ("", ".", ".."):
+                continue
+            x = pct_decode_strict(p)
+            if x is None:
+                out.append("utf8")
+            elif "/" in x:
+                out.append("slash")
+    if d["q"] is not None:
+        seen = set()
+        for it in d["q"].split("&"):
+            if "=" not in it:
+                out.append("qual-noeq")
+                continue
+            k, v = it.split("=", 1)
+            if not re.match(r"^[A-Za-z0-9._-]+$", k):
+                out.append("qual-badkey")
+                continue
+            x = pct_decode_strict(v)
+            if x is None:
+                out.append("utf8")
+                continue
+            if x == "":
+                continue
+            if k.lower() in seen:
+                out.append("qual-dup")
+            seen.add(k.lower())
+            if k.lower() == "checksum" and checksum_text_to_canon(uni, x) is None:
+                out.append("checksum")
+    return out
+
+
+def oracle_C05(ctx, cases, answers):
+    v = []
+    for i, (c, a) in enumerate(zip(cases, answers)):
+        if not c["req"].startswith("parse "):
+            continue
+        f = fields(a)
+        p = f.get("p", a)
+        if "expect_err" in c:
+            if not p.startswith("ERR:" + c["expect_err"] + ":"):
+                v.append((i, "%r has the single defect %s: expected %s, got %s" % (c["s"], c["stream"], c["expect_err"], p[:90])))
+            continue
+        if p.startswith("OK:") and "s" in c:
+            ds = defects(c["s"], ctx.uni)
+            if ds:
+                v.append((i, "%r is accepted although it has defect(s) %s" % (c["s"], sorted(set(ds)))))
+    return v
+
+
+# ---------------------------------------------------------------- C07
+
+def oracle_C07(ctx, cases, answers):
+    v = []
+    for i, (c, a) in enumerate(zip(cases, answers)):
+        if not c["req"].startswith("parse ") or "s" not in c:
+            continue
+        f = fields(a)
+        p = f.get("p", "")
+        if not p.startswith("OK:"):
+            continue
+        got = parse_purl(p[3:])
+        ns, sub = got["ns"], got["sub"]
+        if ns is not None and (ns.startswith("/") or ns.endswith("/") or "" in ns.split("/")):
+            v.append((i, "namespace %r of %r has an empty segment / leading or trailing '/'" % (ns, c["s"])))
+            continue
+        if sub is not None and any(x in ("", ".", "..") for x in sub.split("/")):
+            v.append((i, "subpath %r of %r has an empty, '.' or '..' segment" % (sub, c["s"])))
+            continue
+        d = decompose(c["s"])
+        if d is None:
+            v.append((i, "accepted without scheme"))
+            continue
+        exp_ns = [pct_decode_strict(x) for x in (d["ns"] or "").split("/") if x != ""]
+        exp_sub = [pct_decode_strict(x) for x in (d["sub"] or "").split("/") if x not in ("", ".", "..")]
+        got_ns = ns.split("/") if ns is not None else []
+        got_sub = sub.split("/") if sub is not None else []
+        if got_ns != exp_ns:
+            v.append((i, "namespace segments %r of %r are not the decoded non-empty pieces %r between raw '/'" % (got_ns, c["s"], exp_ns)))
+        elif got_sub != exp_sub:
+            v.append((i, "subpath segments %r of %r are not the decoded non-skipped pieces %r between raw '/'" % (got_sub, c["s"], exp_sub)))
+    return v
+
+
+# ---------------------------------------------------------------- C11: reference map
+
+def show_pairs(items):
+    return "[" + ",".join("%s=%s" % (hx(k), hx(v)) for k, v in items) + "]"
+
+
+def opt_hx(v):
+    return "~" if v is None else hx(v)
+
+
+class RefQuals:
+    """a map keyed by the ASCII-lower-cased key, iterated in ascending (byte) order of the key"""
+
+    def __init__(self, uni):
+        self.m = {}
+        self.uni = uni
+
+    @staticmethod
+    def valid(k):
+        return bool(VALID_KEY.match(k))
+
+    def items(self):
+        return sorted(self.m.items(), key=lambda kv: kv[0].encode())
+
+    def step(self, st, sep=":"):
+        """expected output text of one step"""
+        a = st.split(sep)
+        n = a[0]
+        u = lambda i: unhx(a[i])
+        ERR = "ERR:InvalidQualifier:" + hx("Invalid qualifier")
+        if n == "ins":
+            k, v = u(1), u(2)
+            if not self.valid(k):
+                return ERR
+            self.m[ascii_lower(k)] = v
+            return "OK:" + hx(v)
+        if n == "get":
+            k = u(1)
+            return opt_hx(self.m.get(ascii_lower(k)) if self.valid(k) else None)
+        if n == "has":
+            k = u(1)
+            return "T" if self.valid(k) and ascii_lower(k) in self.m else "F"
+        if n == "mut":
+            k = u(1)
+            if self.valid(k) and ascii_lower(k) in self.m:
+                self.m[ascii_lower(k)] = u(2)
+                return "T"
+            return "F"
+        if n == "rm":
+            k = u(1)
+            if self.valid(k):
+                return opt_hx(self.m.pop(ascii_lower(k), None))
+            return "~"
+        if n == "ent":
+            k, act = u(1), a[2]
+            v = unhx(a[3]) if len(a) > 3 else ""
+            if not self.valid(k):
+                return ERR
+            lk = ascii_lower(k)
+            occ = lk in self.m
+            if act in ("oi", "oiw"):
+                if occ:
+                    return "O" + hx(self.m[lk])
+                self.m[lk] = v
+                return "V" + hx(v) + ("c" if act == "oiw" else "")
+            if act == "am":
+                if occ:
+                    self.m[lk] = v
+                    return "OOc"
+                return "VV"
+            if act == "get":
+                return "O" + hx(self.m[lk]) if occ else "V"
+            if act == "oins":
+                if occ:
+                    old = self.m[lk]
+                    self.m[lk] = v
+                    return "O" + hx(old)
+                return "V"
+            if act == "orm":
+                return "O" + hx(self.m.pop(lk)) if occ else "V"
+            if act == "orme":
+                return "O%s=%s" % (hx(lk), hx(self.m.pop(lk))) if occ else "V"
+            if act == "vins":
+                if occ:
+                    return "O"
+                self.m[lk] = v
+                return "V" + hx(v)
+        if n == "retne":
+            self.m = {k: v for k, v in self.m.items() if v != ""}
+            return "."
+        if n == "retlt":
+            b = u(1).encode()
+            self.m = {k: v for k, v in self.m.items() if k.encode() < b}
+            return "."
+        if n == "retmut":
+            x = u(1)
+            self.m = {k: v + x for k, v in self.m.items() if len(k.encode()) % 2 == 1}
+            return "."
+        if n == "clear":
+            self.m = {}
+            return "."
+        if n == "len":
+            return "%d%s" % (len(self.m), "e" if not self.m else "")
+        if n == "iter":
+            return show_pairs(self.items())
+        if n == "riter":
+            return show_pairs(list(reversed(self.items())))
+        if n == "imut":
+            x = u(1)
+            self.m = {k: v + x for k, v in self.m.items()}
+            return str(len(self.m))
+        if n == "rimut":
+            x = u(1)
+            its = self.items()
+            for i, (k, v) in enumerate(reversed(its)):
+                self.m[k] = v + x + str(i)
+            return "."
+        if n == "idx":
+            k = u(1)
+            if self.valid(k) and ascii_lower(k) in self.m:
+                return hx(self.m[ascii_lower(k)])
+            return "PANIC"
+        if n == "idxmut":
+            k = u(1)
+            if self.valid(k) and ascii_lower(k) in self.m:
+                self.m[ascii_lower(k)] = u(2)
+                return "."
+            return "PANIC"
+        if n == "tfi":
+            new = {}
+            args = a[1:]
+            for i in range(0, len(args) - 1, 2):
+                k, v = unhx(args[i]), unhx(args[i + 1])
+                if not self.valid(k) or ascii_lower(k) in new:
+                    return ERR
+                new[ascii_lower(k)] = v
+            self.m = new
+            return "OK"
+        if n in ("eqk", "cmpk"):
+            i = int(a[1])
+            its = self.items()
+            if i >= len(its):
+                return "~"
+            key = its[i][0]
+            other = self.uni.lower_str(u(2))
+            ka, ob = [ord(c) for c in key], [ord(c) for c in other]
+            if n == "eqk":
+                return "T" if ka == ob else "F"
+            return "lt" if ka < ob else ("gt" if ka > ob else "eq")
+        if n == "gett":
+            return opt_hx(self.m.get(TYPED_KEYS[int(a[1])]))
+        if n == "hast":
+            return "T" if TYPED_KEYS[int(a[1])] in self.m else "F"
+        if n == "inst":
+            self.m[TYPED_KEYS[int(a[1])]] = u(2)
+            return "."
+        if n == "rmt":
+            self.m.pop(TYPED_KEYS[int(a[1])], None)
+            return "."
+        raise ValueError(st)
+
+
+def oracle_C11(ctx, cases, answers):
+    v = []
+    for i, (c, a) in enumerate(zip(cases, answers)):
+        if c["req"].startswith("quals "):
+            ref = RefQuals(ctx.uni)
+            exp = []
+            panicked = False
+            for st in c["req"].split(" ")[1].split(";"):
+                o = ref.step(st)
+                if o == "PANIC":
+                    panicked = True
+                    break
+                exp.append(o)
+            want = "PANIC" if panicked else " | ".join(exp + ["q=" + show_pairs(ref.items())])
+            if a != want:
+                # first differing step
+                got = a.split(" | ")
+                k = next((j for j, (x, y) in enumerate(zip(got, want.split(" | "))) if x != y), min(len(got), len(exp)))
+                v.append((i, "step %d of %s: the collection answers %s, a case-insensitive sorted map gives %s" % (
+                    k, c["req"][:150], (got[k] if k < len(got) else "<nothing>")[:120], (want.split(" | ")[k] if k < len(want.split(" | ")) else "<nothing>")[:120])))
+        elif c["req"].startswith("qcmp "):
+            f = fields(a)
+            same = c.get("same")
+            if same is True and not (f.get("eq") == "T" and f.get("ord") == "eq" and f.get("heq") == "T" and f.get("pord") == "eq"):
+                v.append((i, "two collections with the same content are not equal / do not hash or order alike: %s" % a))
+            if same is False and (f.get("eq") == "T" or f.get("ord") == "eq"):
+                v.append((i, "two collections with different content compare equal: %s" % a))
+            if f.get("same") is not None and (f.get("same") == "T") != (f.get("eq") == "T"):
+                v.append((i, "== disagrees with the iterated content: %s" % a))
+    return v
+
+
+# ---------------------------------------------------------------- C12: reference checksum
+
+class RefCksum:
+    def __init__(self, uni):
+        self.uni = uni
+        self.m = {}
+
+    def text(self):
+        """None = error"""
+        for h_ in self.m.values():
+            if len(h_.encode()) % 2 != 0 or not re.match(r"^[0-9a-fA-F]*$", h_):
+                return None
+        return ",".join("%s:%s" % (a, ascii_lower(h_)) for a, h_ in sorted(self.m.items(), key=lambda e: e[0].encode("utf-8")))
+
+    def step(self, st, sep=":"):
+        a = st.split(sep)
+        n = a[0]
+        u = lambda i: unhx(a[i])
+        ERR = "ERR:InvalidQualifier:" + hx("Invalid qualifier")
+        if n == "of":
+            new = {}
+            for e in u(1).split(","):
+                if ":" not in e:
+                    return ERR
+                alg, hexd = e.rsplit(":", 1)
+                alg = self.uni.lower_str(alg)
+                if alg in new:
+                    return ERR
+                new[alg] = hexd
+            self.m = new
+            return "OK"
+        if n == "ins":
+            self.m[self.uni.lower_str(u(1))] = "" if a[2] == "-" else a[2]
+            return "."
+        if n == "raw":
+            self.m[self.uni.lower_str(u(1))] = u(2)
+            return "."
+        if n == "rm":
+            self.m.pop(u(1), None)
+            return "."
+        if n == "get":
+            v = self.m.get(u(1))
+            if v is None:
+                return "~"
+            if len(v.encode()) % 2 != 0 or not re.match(r"^[0-9a-fA-F]*$", v):
+                return "ERR:hex"
+            return "OK:" + (ascii_lower(v) or "-")
+        if n == "getraw":
+            return opt_hx(self.m.get(u(1)))
+        if n == "algs":
+            return "[" + ",".join(hx(k) for k in sorted(self.m, key=lambda k: k.encode("utf-8"))) + "]"
+        if n == "iter":
+            return show_pairs(sorted(self.m.items(), key=lambda e: e[0].encode("utf-8")))
+        if n == "text":
+            t = self.text()
+            return ERR if t is None else "OK:" + hx(t)
+        if n == "rt":
+            t = self.text()
+            if t is None:
+                return ERR
+            if t == "":
+                return "OK:-:" + ERR
+            return "OK:%s:%s" % (hx(t), show_pairs(sorted(((k, ascii_lower(v)) for k, v in self.m.items()), key=lambda e: e[0].encode("utf-8"))))
+        raise ValueError(st)
+
+
+def oracle_C12(ctx, cases, answers):
+    v = []
+    groups = {}
+    for i, (c, a) in enumerate(zip(cases, answers)):
+        if c["req"].startswith("cksum "):
+            if a == "PANIC":
+                continue
+            ref = RefCksum(ctx.uni)
+            exp = [ref.step(st) for st in c["req"].split(" ")[1].split(";")]
+            want = " | ".join(exp)
+            if a != want:
+                got = a.split(" | ")
+                k = next((j for j, (x, y) in enumerate(zip(got, exp)) if x != y), min(len(got), len(exp)))
+                v.append((i, "step %d of %s: got %s, the reference (entries keyed by lower-cased algorithm, text sorted with lower-case hex) gives %s" % (
+                    k, c["req"][:160], (got[k] if k < len(got) else "<nothing>")[:120], (exp[k] if k < len(exp) else "<nothing>")[:120])))
+            if "group" in c:
+                groups.setdefault(c["group"], []).append((i, a.split(" | ")[-3:] if " | " in a else [a]))
+        elif c.get("stream") == "cksum-purl":
+            # a PURL carrying a checksum in some spelling: the canonical text and the typed read-back
+            f = fields(a)
+            p = f.get("p", f.get("b", ""))
+            if p.startswith("OK:"):
+                got = dict(parse_purl(p[3:])["q"]).get("checksum")
+                if got != c["canon"]:
+                    v.append((i, "checksum of %r is carried as %r, canonical text is %r" % (c.get("s"), got, c["canon"])))
+            else:
+                v.append((i, "a PURL with a well-formed checksum is refused: %s" % p[:80]))
+    for g, items in groups.items():
+        texts = set(tuple(t) for _, t in items)
+        if len(texts) > 1:
+            v.append((items[0][0], "the same entries inserted in different orders / letter cases give different texts: %s" % sorted(texts)[:2]))
+    return v
+
+
+# ---------------------------------------------------------------- C14
+
+def apply_hook(bits, parts):
+    """what the hook of family member `bits` writes; parts = dict(ns,name,ver,q(dict),sub)"""
+    p = dict(parts)
+    q = dict(parts["q"])
+    if bits & 4:
+        p["name"] = ""
+    if bits & 8:
+        p["ns"], p["ver"], p["sub"] = "hook/ns", "9@", "hook/../sub"
+    if bits & 16:
+        q["zz"] = ""
+    if bits & 32:
+        q["hookq"] = "v&="
+    if bits & 64:
+        q["checksum"] = "sha1:xyz"
+    if bits & 128:
+        q["checksum"] = "SHA1:AB,md5:00"
+    p["q"] = q
+    return p
+
+
+def oracle_C14(ctx, cases, answers):
+    v = []
+    for i, (c, a) in enumerate(zip(cases, answers)):
+        if not c["req"].startswith("shape ") or a == "PANIC":
+            continue
+        bits = c["bits"]
+        m = re.search(r" log=\[(.*?)\]$", a)
+        if not m:
+            if "b=ABORT" in a:
+                continue
+            v.append((i, "no call log in answer %s" % a[:100]))
+            continue
+        log = [x for x in m.group(1).split(",") if x] if m.group(1) else []
+        # re-join fin entries (their qualifier list contains commas)
+        calls = []
+        for x in log:
+            if x.startswith("conv:") or x.startswith("fin:"):
+                calls.append(x)
+            elif calls:
+                calls[-1] += "," + x
+        convs = [x for x in calls if x.startswith("conv:")]
+        fins = [x for x in calls if x.startswith("fin:")]
+        is_parse = " parse " in c["req"]
+        body = a[:m.start()]
+        res = body.split("b=", 1)[1] if "b=" in body and not is_parse else body
+        res = res.split(" s=")[0]
+        if is_parse:
+            d = decompose(c["s"])
+            if len(convs) > 1:
+                v.append((i, "conversion called %d times in one parse" % len(convs)))
+                continue
+            if convs:
+                arg = unhx(convs[0][5:])
+                if not re.match(r"^[A-Za-z0-9.+-]+$", arg):
+                    v.append((i, "conversion called with the invalid type string %r" % arg))
+                    continue
+                if d is None or arg != d["ty"]:
+                    v.append((i, "conversion called with %r, the type substring of %r is %r" % (arg, c["s"], d and d["ty"])))
+                    continue
+            if len(fins) > 1 or (fins and not convs) or (fins and (bits & 1)):
+                v.append((i, "finish hook called %d times / before a successful conversion (log %s)" % (len(fins), calls)))
+                continue
+            if calls and calls[0].startswith("fin:"):
+                v.append((i, "finish hook called before the conversion"))
+                continue
+            if convs and (bits & 1) and not res.startswith("ERR:Fam.Conv"):
+                v.append((i, "conversion error not returned unchanged: %s" % res[:80]))
+                continue
+        else:
+            if convs:
+                v.append((i, "conversion called during build()"))
+                continue
+            if len(fins) != 1:
+                v.append((i, "finish hook called %d times in one build()" % len(fins)))
+                continue
+        if not fins:
+            continue
+        if bits & 2:
+            if not res.startswith("ERR:Fam.Hook"):
+                v.append((i, "hook error not returned unchanged: %s" % res[:80]))
+            continue
+        # what the hook saw -> what it wrote -> what the generic checks make of it
+        fa = fins[0].split(":")
+        qtxt = fins[0][fins[0].index("["):]
+        qpairs, _ = parse_pairs(qtxt)
+        seen = {"ty": unhx(fa[1]), "ns": unhx(fa[2]), "name": unhx(fa[3]), "ver": unhx(fa[4]), "q": dict(qpairs), "sub": unhx(fa[-1])}
+        w = apply_hook(bits, seen)
+        ty = ascii_lower(seen["ty"]) if bits & 256 else seen["ty"]
+        if w["name"] == "":
+            if not res.startswith("ERR:Fam.Parse.MissingRequiredField.Name"):
+                v.append((i, "hook cleared the name: expected MissingRequiredField(Name), got %s" % res[:80]))
+            continue
+        q = {k: val for k, val in w["q"].items() if val != ""}
+        if "checksum" in q:
+            cc = checksum_text_to_canon(ctx.uni, q["checksum"])
+            if cc is None:
+                if not res.startswith("ERR:Fam.Parse.InvalidQualifier"):
+                    v.append((i, "hook wrote a malformed checksum: expected InvalidQualifier, got %s" % res[:80]))
+                continue
+            q["checksum"] = cc
+        if not res.startswith("OK:"):
+            v.append((i, "hook succeeded and the parts are valid, but the result is %s" % res[:80]))
+            continue
+        got = parse_purl(res[3:])
+        exp = {"ty": ty, "ns": w["ns"] or None, "name": w["name"], "ver": w["ver"] or None,
+               "q": sorted(q.items(), key=lambda kv: kv[0].encode()), "sub": w["sub"] or None}
+        dd = cmp_fields(got, exp)
+        if dd:
+            v.append((i, "the PURL does not report what the hook wrote: %s" % "; ".join(dd)))
+    return v
+
+
+# ---------------------------------------------------------------- C15
+
+def oracle_C15(ctx, cases, answers):
+    v = []
+    for i, (c, a) in enumerate(zip(cases, answers)):
+        if not c["req"].startswith("ptype "):
+            continue
+        s = unhx(c["req"].split(" ")[1])
+        if a.startswith("OK:"):
+            p = a.split(":")
+            d = dict(x.split("=") for x in p[2:])
+            names = set(d.values())
+            if len(names) != 1:
+                v.append((i, "name(), Display, AsRef, From, package_type() disagree: %s" % a))
+                continue
+            name = unhx(d["name"])
+            if name not in KNOWN_TYPES or name != ascii_lower(name):
+                v.append((i, "type name %r is not a lower-case known name" % name))
+            if ascii_lower(s) != name:
+                v.append((i, "%r is taken for the package type %r" % (s, name)))
+        else:
+            if ascii_lower(s) in KNOWN_TYPES:
+                v.append((i, "%r (a case variant of a known type name) is refused" % s))
+        if "expect" in c and not (a.startswith("OK:") and ":name=" + hx(c["expect"]) + ":" in a):
+            v.append((i, "case variant %r of %r not recognised: %s" % (s, c["expect"], a[:60])))
+    return v
+
+
+# ---------------------------------------------------------------- C18
+
+def comb_split(ident, s):
+    if ident in ("Golang", "Npm"):
+        return (s.rsplit("/", 1)[0], s.rsplit("/", 1)[1]) if "/" in s else (None, s)
+    if ident == "Maven":
+        return (s.split(":", 1)[0], s.split(":", 1)[1]) if ":" in s else (None, s)
+    return (None, s)
+
+
+def oracle_C18(ctx, cases, answers):
+    v = []
+    for i, (c, a) in enumerate(zip(cases, answers)):
+        if c["req"].startswith("comb "):
+            f = fields(a)
+            ns, name = comb_split(c["ident"], c["s"])
+            got_ns, got_name = unhx(f["ns"]), unhx(f["name"])
+            if got_name != name or got_ns != (ns or ""):
+                v.append((i, "%s combined name %r split into namespace %r / name %r, expected %r / %r" % (c["ident"], c["s"], got_ns, got_name, ns or "", name)))
+                continue
+            b = f.get("b", "")
+            if b.startswith("OK:"):
+                p = parse_purl(b[3:])
+                side = ("/" not in p["name"]) if c["ident"] in ("Golang", "Npm") else ((":" not in (p["ns"] or "")) if c["ident"] == "Maven" else (p["ns"] is None))
+                if side:
+                    if unhx(f["ns2"]) != (p["ns"] or "") or unhx(f["name2"]) != p["name"]:
+                        v.append((i, "combined_name() %r of %s does not split back into namespace %r / name %r (got %r / %r)" % (
+                            unhx(f["cn"]), c["ident"], p["ns"], p["name"], unhx(f["ns2"]), unhx(f["name2"]))))
+        elif c["req"].startswith("combp "):
+            if not a.startswith("OK:"):
+                continue
+            f = fields(a)
+            p = parse_purl(a[3:].split(" ")[0])
+            ty = p["ty"]
+            side = ("/" not in p["name"]) if ty in ("golang", "npm") else ((":" not in (p["ns"] or "")) if ty == "maven" else (p["ns"] is None))
+            if side and (unhx(f["ns2"]) != (p["ns"] or "") or unhx(f["name2"]) != p["name"]):
+                v.append((i, "combined_name() %r of a %s PURL does not split back into %r / %r (got %r / %r)" % (
+                    unhx(f["cn"]), ty, p["ns"], p["name"], unhx(f["ns2"]), unhx(f["name2"]))))
+    return v
+
+
+# ---------------------------------------------------------------- C19
+
+def oracle_C19(ctx, cases, answers):
+    v = []
+    for i, (c, a) in enumerate(zip(cases, answers)):
+        if c["req"].startswith("cmp3 "):
+            if a in ("NOVALUE", "NA", "PANIC"):
+                continue
+            f = fields(a)
+            ab, bc, ac = f["ab"], f["bc"], f["ac"]
+            le = lambda o: o in ("lt", "eq")
+            if le(ab) and le(bc) and not le(ac):
+                v.append((i, "ordering not transitive: a<=b, b<=c but a>c (%s)" % a))
+            if ab == "eq" and bc == "eq" and ac != "eq":
+                v.append((i, "ordering equality not transitive (%s)" % a))
+            if (ab == "lt" and bc in ("lt", "eq") or ab in ("lt", "eq") and bc == "lt") and ac != "lt":
+                v.append((i, "ordering not transitive (%s)" % a))
+            continue
+        if not c["req"].startswith("cmp "):
+            continue
+        if a in ("NOVALUE", "NA", "PANIC"):
+            continue
+        f = fields(a)
+        eq, seq = f["eq"] == "T", f["seq"] == "T"
+        if eq != seq:
+            v.append((i, "PURLs are %s but their canonical strings are %s (%s)" % ("equal" if eq else "different", "equal" if seq else "different", c["req"][:200])))
+        if (f["ne"] == "T") == eq:
+            v.append((i, "!= is not the negation of =="))
+        if eq and f["heq"] != "T":
+            v.append((i, "equal PURLs hash differently"))
+        if (f["ord"] == "eq") != eq:
+            v.append((i, "cmp says %s but == says %s" % (f["ord"], eq)))
+        rev = {"lt": "gt", "gt": "lt", "eq": "eq"}[f["ord"]]
+        if f["rord"] != rev:
+            v.append((i, "cmp is not antisymmetric: a?b=%s b?a=%s" % (f["ord"], f["rord"])))
+        if f["pord"] != f["ord"]:
+            v.append((i, "partial_cmp (%s) disagrees with cmp (%s)" % (f["pord"], f["ord"])))
+        if (f["lt"] == "T") != (f["ord"] == "lt") or (f["le"] == "T") != (f["ord"] in ("lt", "eq")):
+            v.append((i, "< / <= disagree with cmp"))
+    return v
